@@ -81,10 +81,17 @@ def make_reaction(spec: dict):
         states = {int(e): State(parts[p], F(h2, 2)) for e, (p, h2) in t["states"].items()}
         inter = {}
         for nid, nd in t["nodes"].items():
+            proj = {}
+            if spec["formalism"].startswith("canonical") and nd.get("L2", NONE) != NONE:
+                # as qrules' solver provides them (clebsch_gordan_helicity_to_canonical): L has projection 0 and the
+                # coupled spin the helicity difference of the outgoing edges taken in EDGE-ID order
+                out = sorted(e for e, ed in t["topology"].edges.items() if ed.originating_node_id == int(nid))
+                proj = {"l_projection": 0, "s_projection": states[out[0]].spin_projection - states[out[1]].spin_projection}
             inter[int(nid)] = InteractionProperties(
                 l_magnitude=None if nd.get("L2", NONE) == NONE else nd["L2"] // 2,
                 s_magnitude=None if nd.get("S2", NONE) == NONE else F(nd["S2"], 2),
                 parity_prefactor=None if nd.get("eta", 0) == 0 else float(nd["eta"]),
+                **proj,
             )
         trs.append(FrozenTransition(t["topology"], states, inter))
     return ReactionInfo(trs, formalism=spec["formalism"])
